@@ -282,3 +282,31 @@ def whole_collection_loop(body, nid, arg_idx=0):
                     names.add(nm)
     bad = [c for c in calls if any(path_matches(c, f) for f in RESTRICTING) or c == "<index>" or (c.endswith("::index") and "Index" in c)]
     return (in_loop and not bad), names, {"in_loop": in_loop, "restricted_by": bad}
+
+
+
+def upvar_parent_exprs(prog, cbody):
+    """for a closure body: the parent's expressions captured as upvars (index -> E in the parent's tracer)"""
+    parent = prog.bodies.get(cbody.parent) if cbody.parent else None
+    if parent is None:
+        return None, {}
+    for n in parent.nodes:
+        if n.kind == "assign" and n.ev.get("rv") == "agg" and n.ev.get("agg") == "closure" and n.ev.get("def") == cbody.path:
+            tr = A.tracer(parent)
+            return parent, {i: tr.operand(o) for i, o in enumerate(n.ev["ops"])}
+    return parent, {}
+
+
+def closure_expr_parents(prog, cbody, e):
+    """parent-side expressions of the captured variables an expression inside a closure reads"""
+    parent, ups = upvar_parent_exprs(prog, cbody)
+    out = []
+    for x in e.walk():
+        if x.k == "field" and x.a and x.a[0].k == "arg" and x.a[0].extra[0] == 1 and "closure" in str(x.extra[0]):
+            try:
+                i = int(x.extra[1])
+            except ValueError:
+                continue
+            if i in ups:
+                out.append(ups[i])
+    return parent, out
